@@ -132,15 +132,16 @@ Definition oracle_b (c : case) : bool :=
       end
   | FindDiv num k =>
       (* the chosen digit count makes the quotient fit u128, and it is minimal except
-         that a quotient of exactly u128::MAX is reduced by one more digit *)
+         that a quotient of exactly u128::MAX with a non-zero remainder is reduced by one
+         more digit (k - 1 digits are dropped only ... k is chosen only when num exceeds u128::MAX * 10^(k-1)) *)
       (0 <=? k) && (k <=? 20) && (num / 10 ^ k <? 2 ^ 128)
-      && ((k =? 0) || (2 ^ 128 - 1 <=? num / 10 ^ (k - 1)))
+      && ((k =? 0) || ((2 ^ 128 - 1) * 10 ^ (k - 1) <? num))
   | ConvU128 num decimals r =>
       match r with
       | Ok (q, d') =>
           let k := decimals - d' in
           (0 <=? k) && (k <=? 20) && (0 <=? d') && in_u 128 q && is_floor num (10 ^ k) q
-          && ((k =? 0) || (2 ^ 128 - 1 <=? num / 10 ^ (k - 1)))
+          && ((k =? 0) || ((2 ^ 128 - 1) * 10 ^ (k - 1) <? num))
       | Err 1 => (2 ^ 128 - 1) * 10 ^ decimals <? num
       | Err _ => false
       end
